@@ -670,7 +670,7 @@ def wl_chain(n: int = 2) -> Workflow:
     return workflow([stage("s%d" % i, ["s%d" % (i - 1)] if i else []) for i in range(n)])
 
 
-def wl_diamond(fail: str | None = None, cont: bool = False) -> Workflow:
+def wl_diamond(fail: str | None = None, cont: bool = False, join_tasks: int = 1) -> Workflow:
     bt = {"t1": {"kind": "terminal"}} if fail == "b" else None
     bctx = {"continuePipelineOnFailure": True} if cont else None
     return workflow(
@@ -678,7 +678,7 @@ def wl_diamond(fail: str | None = None, cont: bool = False) -> Workflow:
             stage("a"),
             stage("b", ["a"], tasks=bt, ctx=bctx),
             stage("c", ["a"]),
-            stage("d", ["b", "c"]),
+            stage("d", ["b", "c"], tasks={"t%d" % i: dict(OK) for i in range(1, join_tasks + 1)}),
         ]
     )
 
@@ -819,6 +819,7 @@ WORKLOADS: dict[str, Callable[[], Workflow]] = {
     "suspend2": lambda: wl_suspend(signals=2),
     "mutex": wl_mutex,
     "choice": wl_choice,
+    "diamond_j2": lambda: wl_diamond(join_tasks=2),
     "after2": lambda: wl_synthetic("after2"),
     "after2_fail": lambda: wl_synthetic("after2_fail"),
     "after2_failcont": lambda: wl_synthetic("after2_failcont"),
